@@ -98,7 +98,7 @@ def run(ctx):
         ctx.constants["MC_storage_%s" % prof] = c
         ctx.mc("storage/MCStorageMore", cfg("SpecM", c, MC_PROPS_STORAGE), name="MC storage-more %s" % prof, timeout=3000)
     c = dict(NP=3, MaxHist=1 if q else 2, KindSet='{"bc", "lc"}', Universe="{11, 12, 21}" if q else "{11, 12, 21, 31}",
-             MaxBuckets=3, MaxCycles=2 if q else 3, MaxKills=1 if q else 2, MaxChanges=1)
+             MaxBuckets=3 if q else 4, MaxCycles=2 if q else 3, MaxKills=1 if q else 2, MaxChanges=1 if q else 2)
     ctx.constants["MC_crawl"] = c
     ctx.mc("storage/MCCrawlerMore", cfg("Spec", c, MC_PROPS_CRAWL), name="MC crawler-more (bucket counter, lease checker)", timeout=3000)
     ctx.exhaustive = True
